@@ -282,6 +282,8 @@ def unify(pat, ty, env):
         env[ph] = s
         return True
     th, tc = ty
+    if ph == th and pc and not tc and ph not in ('tuple', 'slice', 'array', '&'):
+        return True      # type recovered from a runtime value: generic arguments unknown
     if ph != th or len(pc) != len(tc):
         return False
     return all(unify(a, b, env) for a, b in zip(pc, tc))
